@@ -145,7 +145,7 @@ def gen_tree(rng, prof=DEFAULT_PROFILE):
     return list(tree.values())
 
 
-MUT_KINDS = ['write', 'write', 'write', 'delete', 'delete', 'rmtree', 'mkdir', 'touch', 'samemeta']
+MUT_KINDS = ['write', 'write', 'write', 'delete', 'delete', 'rmtree', 'mkdir', 'touch']
 
 
 def gen_mut(rng, prof, tcounter, kinds=MUT_KINDS, paths=None):
